@@ -7,7 +7,7 @@ SPECIALS = '\\{}$%[]\x00\x7f'
 CTX = [('', ''), ('\\begin{e}', '\\end{e}'), ('\\begin{itemize}\\item ', '\\end{itemize}'), ('\\z{', '}'), ('$', '$'),
        ('{', '}'), ('\\z[', ']'), ('\\begin{align}', '\\end{align}')]
 BODIES_BR = ['x', '', 'a{]}b', 'a b', '{[}', '\\w{y}']
-BODIES_BC = ['x', '', 'a]b', 'a[b', '[', ']', 'a{b}c', '\\w[y]{z}']
+BODIES_BC = ['x', '', 'a]b', 'a[b', '[', ']', 'a{b}c', '\\w[y]{z}', '\\w \\v', '{a}\n{b}']
 
 
 def SEP(n, first):
@@ -73,6 +73,7 @@ def c09(ci, nb, nc, seplens, bodyidx, tail, namelen):
     for a, g, obj in zip(got, groups[:k], list(cmd.args)):
         SX.check(a == g, 'C09:arg-text', lambda: dict(det(), got=got))
         SX.check(isinstance(obj, BracketGroup if g[0] == '[' else BraceGroup), 'C09:arg-kind', lambda: dict(det(), got=got))
+        SX.check(SX.raw(str(obj.string)) == g[1:-1], 'C09:arg-contents', lambda: dict(det(), string=SX.raw(str(obj.string)), expected=g[1:-1]))
     rest = ''.join([s + g for s, g in list(zip(seps, groups))[k:]])
     expout = pre + '\\' + name + ''.join(groups[:k]) + rest + tail + post
     SX.check(str(soup) == expout, 'C09:rest-kept', lambda: dict(det(), output=str(soup), expected=expout))
